@@ -539,7 +539,14 @@ func (x *Exec) modified(nodes []ast.Node, st *State) []types.Object {
 	seen := map[types.Object]bool{}
 	mark := func(e ast.Expr) {
 		if o := rootObj(e, x.info); o != nil {
-			if _, ok := st.env[o]; ok {
+			if v, ok := st.env[o]; ok {
+				if _, direct := unparen(e).(*ast.Ident); !direct {
+					// writing through a reference changes the heap, not the variable
+					switch v.(type) {
+					case VMapRef, VRef:
+						return
+					}
+				}
 				seen[o] = true
 			}
 		}
